@@ -82,3 +82,68 @@ func dependsOnAll(v, target ssa.Value, seen map[ssa.Value]bool, depth int) bool 
 	}
 	return false
 }
+
+// MayDependOn reports whether v may be computed from a value satisfying src on
+// SOME way it can be produced (data dependence through operands, φ edges, local
+// cells and their element/field stores).
+func MayDependOn(v ssa.Value, src func(ssa.Value) bool) bool {
+	return mayDependOn(v, src, map[ssa.Value]bool{}, 0)
+}
+
+func mayDependOn(v ssa.Value, src func(ssa.Value) bool, seen map[ssa.Value]bool, depth int) bool {
+	if v == nil || depth > 60 || seen[v] {
+		return false
+	}
+	seen[v] = true
+	if src(v) {
+		return true
+	}
+	switch x := v.(type) {
+	case *ssa.Const, *ssa.Global, *ssa.Parameter, *ssa.FreeVar, *ssa.Function, *ssa.Builtin:
+		return false
+	case *ssa.Phi:
+		for _, e := range x.Edges {
+			if mayDependOn(e, src, seen, depth+1) {
+				return true
+			}
+		}
+		return false
+	case *ssa.Alloc:
+		found := false
+		var scan func(addr ssa.Value)
+		scan = func(addr ssa.Value) {
+			refs := addr.Referrers()
+			if refs == nil {
+				return
+			}
+			for _, r := range *refs {
+				switch u := r.(type) {
+				case *ssa.Store:
+					if u.Addr == addr && mayDependOn(u.Val, src, seen, depth+1) {
+						found = true
+					}
+				case *ssa.IndexAddr:
+					if u.X == addr {
+						scan(u)
+					}
+				case *ssa.FieldAddr:
+					if u.X == addr {
+						scan(u)
+					}
+				}
+			}
+		}
+		scan(x)
+		return found
+	}
+	in, ok := v.(ssa.Instruction)
+	if !ok {
+		return false
+	}
+	for _, op := range in.Operands(nil) {
+		if op != nil && *op != nil && mayDependOn(*op, src, seen, depth+1) {
+			return true
+		}
+	}
+	return false
+}
